@@ -12,11 +12,14 @@ MANIFEST = dict(
          "offsets, line numbers, dropped context) and LineBuffer::fill/roll/ensure_capacity/consume; reader_eq_slice(_complete): "
          "hence the same events as SliceByLine::run, and the same run_result (final byte count too) whenever the search is not cut "
          "short by stop-on-nonmatch; reader_eq_ref_any_policy (heap limit: equal or allocation error); "
-         "line_buffer_fill_is_stream_window (the buffer is a window of the stream for every history/capacity/policy, fill never "
+         "search_history_independent / search_state_independent / strategy_independent_events (Model/SearcherGlue.v: one Searcher "
+         "reused for a list of sources — slice, reader, file with or without memory map — keeps only its roll buffer and "
+         "multi-line buffer; every search returns what a fresh Searcher returns, whatever was searched before; D22 found by this "
+         "proof and repaired); line_buffer_fill_is_stream_window (the buffer is a window of the stream for every history/capacity/policy, fill never "
          "stuck); multiline_flag_irrelevant. D8 (byte count of an early-ended reader search) is proved to be the only difference "
          "(n <= reference count; witness early_end_byte_count_witness) and is a known finding. Tie to the code on every run: "
          "model = code on the real roll buffer fed through a hook with scripted read histories (capacities 1..65, both growth "
-         "policies, sink stops), reader events = slice events = reference, the public search_reader, rg --mmap/--no-mmap/stdin. "
+         "policies, sink stops), sequences of searches by one real Searcher (kind 206) = model = fresh Searcher, reader events = slice events = reference, the public search_reader, rg --mmap/--no-mmap/stdin. "
          "D10 fixed.",
     note="memory maps are searched as slices (mmap.rs only chooses the strategy; CLI comparison); binary detection off as the "
          "property says; failing reads are C16's theorems; trusted: Coq kernel, extraction, driver, harness, hooks "
@@ -142,7 +145,77 @@ def run(ctx):
     ctx.cov["rule"] = ("searcher case x buffer capacity 1..65 x growth policy (eager / Error(extra)) x read history "
                        "(default, 1-byte, constant, random) x optional sink stop; non-trivial = input longer than the "
                        "buffer capacity (forces rolling/growth)")
+    sequences(ctx)
     cli(ctx)
+
+
+def sequences(ctx):
+    """kind 206: ONE Searcher searches several sources one after the other (slice, reader, file with and without a
+    memory map); model (Model/SearcherGlue.v search_seq) = code, and every result equals what a fresh Searcher
+    delivers for that source (theorem search_history_independent) — only the byte count of an early-ended reader
+    search may depend on the history (D8: the capacity grown by earlier searches)."""
+    rng = ctx.rng
+    n = ctx.count(500)
+    lines, metas = [], []
+    for i in range(n):
+        base = sg.gen_case(rng, multi_line=(rng.random() < 0.3))
+        if base["cfg"]["multi_line"]:
+            # needles of multi-line cases may span the terminator: the matcher must then not advertise that it never
+            # matches it (lt_mode 1/2 would select the line strategy with a matcher that breaks its own contract)
+            base["lt_mode"] = 0
+        cap = rng.choice([1, 2, 3, 5, 8, 16, 64])
+        srcs = []
+        for _ in range(rng.randint(2, 4)):
+            inp = sg.gen_input(rng, base["cfg"]) if rng.random() < 0.8 else base["input"]
+            tag = rng.choice([0, 1, 1, 2, 3])
+            hist = gen_hist(rng, len(inp), cap) if tag == 1 else []
+            srcs.append((tag, inp, hist))
+        sv = vlist([vlist([str(t), vbytes(b), hist_val(h), "()"]) for t, b, h in srcs])
+        lines.append(vlist([sg.cfg_val(base["cfg"]), sg.matcher_val(base["needles"], base["confirm"], base["lt_mode"]), str(cap), sv]))
+        metas.append((base, cap, srcs))
+    co = vlib.code(206, lines)
+    mo = vlib.model(206, lines)
+    # fresh Searcher per source, through the same harness entry point
+    fresh_lines = []
+    for base, cap, srcs in metas:
+        for t, b, h in srcs:
+            fresh_lines.append(vlist([sg.cfg_val(base["cfg"]), sg.matcher_val(base["needles"], base["confirm"], base["lt_mode"]), str(cap),
+                                      vlist([vlist([str(t), vbytes(b), hist_val(h), "()"])])]))
+    fo = vlib.code(206, fresh_lines)
+    k = 0
+    nseq = 0
+    for (base, cap, srcs), line, c, m in zip(metas, lines, co, mo):
+        cv = parse_val(c) if c.startswith("(") else None
+        mv = parse_val(m) if m.startswith("(") else None
+        if cv is None or mv is None:
+            ctx.violation("sequence harness/model failure: %s / %s" % (c[:100], m[:100]), dict(kind=206, line=line))
+            k += len(srcs)
+            continue
+        nseq += 1
+        ctx.note_case(line, True)
+        for j, (t, b, h) in enumerate(srcs):
+            fv = parse_val(fo[k])[0] if fo[k].startswith("(") else None
+            k += 1
+            early = base["cfg"]["stop_on_nonmatch"]
+
+            def same_but_count(x, y):
+                return (x is not None and y is not None and x[0] == y[0] and len(x) > 1 and len(y) > 1 and len(x[1]) == len(y[1])
+                        and x[1][:-1] == y[1][:-1] and x[1] and x[1][-1][0] == 5 and y[1][-1][0] == 5)
+            if cv[j] != mv[j]:
+                if early and same_but_count(cv[j], mv[j]) and t in (1, 3):
+                    ctx.known(KNOWN_D8, "sequence: source %d of %r: model finish=%r code finish=%r" % (j, sg.describe(base), mv[j][1][-1], cv[j][1][-1]))
+                else:
+                    ctx.violation("a Searcher searching several sources in a row: model and code disagree on source %d" % j,
+                                  dict(kind=206, line=line, case=sg.describe(base), cap=cap, sources=[(t_, b_.decode("latin1"), h_[:8]) for t_, b_, h_ in srcs],
+                                       model=repr(mv[j]), code=repr(cv[j])), nfi=(fv == cv[j]))
+            if fv != cv[j]:
+                if early and same_but_count(cv[j], fv) and t in (1, 3):
+                    ctx.known(KNOWN_D8, "sequence: source %d of %r: fresh finish=%r reused finish=%r" % (j, sg.describe(base), fv[1][-1], cv[j][1][-1]))
+                else:
+                    ctx.violation("the result of a search depends on what the same Searcher searched before (source %d of the sequence)" % j,
+                                  dict(kind=206, line=line, case=sg.describe(base), cap=cap, sources=[(t_, b_.decode("latin1"), h_[:8]) for t_, b_, h_ in srcs],
+                                       fresh=repr(fv), reused=repr(cv[j])))
+    ctx.cov["searcher_sequences"] = nseq
 
 
 def cli(ctx):
